@@ -372,3 +372,39 @@ def legal_scenarios(rng, thorough, prefix="L"):
                     REAL_V2, REAL_V2B, csd_v2(0), csd_v2(0x3FFFFE), csd_v2(0x3FFFFF), csd_v2(65535), csd_v2(0x1FFFFF)]:
             scns.append(Scn("%s%d" % (prefix, n), 1, 50, ["gt", "nb", "ny", "es"], kind=kind, csd=csd, memseed=1, tseed=n, tag="capacity")); n += 1
     return scns
+
+
+def _unrle(s_):
+    if s_ in ("-", ""):
+        return b""
+    out = bytearray()
+    for part in s_.split(","):
+        if "*" in part:
+            h, n = part.split("*")
+            out += bytes.fromhex(h) * int(n)
+        else:
+            out += bytes.fromhex(part)
+    return bytes(out)
+
+
+def directed_cuts(legal_misos, unrle=None, rle=None, prefix="DC", limit=40):
+    """silent / stuck peers at the points where the driver polls: the recorded MISO stream of a legal run is cut
+    (a) just BEFORE a data start token 0xFE, padded with 0xFF: the card answered the read command and then never
+        sends the data token;
+    (b) just AFTER a data-response token (xxx00101 = 0xE5), padded with 0x00: the card stays busy for ever after
+        accepting a block (single, middle or LAST block of a multi-block write).
+    Every driver call must still return within its byte bound and must keep to the SPI-mode rules."""
+    scns = []
+    n = 0
+    for (crc, retries, calls, miso) in legal_misos:
+        full = unrle(miso)
+        cuts = []
+        for i, b in enumerate(full):
+            if b == 0xFE and i > 0 and full[i - 1] in (0xFF, 0x00):
+                cuts.append((i, "ff", "silent-before-token"))
+            if b == 0xE5:
+                cuts.append((i + 1, "00", "busy-forever"))
+        step = max(1, len(cuts) // limit)
+        for (i, pad, tag) in cuts[::step][:limit]:
+            scns.append(Scn("%s%d" % (prefix, n), crc, 2, calls, raw=rle(full[:i]), pad=pad, tag=tag)); n += 1
+    return scns
